@@ -342,6 +342,10 @@ func vacuityCheck(vcs []vcAndKey, timeout int) []string {
 				defer func() { <-sem }()
 				// is the call itself reachable? (dead code under assumed library contracts is not a vacuity problem)
 				q := v.vc.CoverQuery(cp.Guard, cp.NAssumes)
+				if d := os.Getenv("GOVC_DUMP"); d != "" {
+					os.MkdirAll(d, 0o755)
+					os.WriteFile(filepath.Join(d, "coverpt_"+mangle(v.key+"_"+cp.What)+".smt2"), []byte(dropQuantified(q)), 0o644)
+				}
 				r := runSolver(solvers[0], dropQuantified(q), timeout)
 				if r.verdict == "unsat" {
 					pre := v.vc.CoverQuery(cp.Guard, cp.PreAssumes)
@@ -369,6 +373,10 @@ func vacuityCheck(vcs []vcAndKey, timeout int) []string {
 				sem <- struct{}{}
 				defer func() { <-sem }()
 				q := v.vc.CoverQuery(o.Guard, o.NAssumes)
+				if d := os.Getenv("GOVC_DUMP"); d != "" {
+					os.MkdirAll(d, 0o755)
+					os.WriteFile(filepath.Join(d, "cover_"+mangle(o.Name)+".smt2"), []byte(q), 0o644)
+				}
 				// reachability needs a model, which quantified axioms usually prevent: short attempt with them,
 				// then without (a contradiction among the quantifier-free facts is what a vacuous contract looks like)
 				r := runSolver(solvers[0], q, 2)
